@@ -551,10 +551,10 @@ pub fn phases(cfg: &Cfg) -> Vec<Box<dyn Phase>> {
     vec![
         Box::new(Exhaustive { asts: all }),
         Box::new(Random {
-            n: cfg.n(250_000, 3_000_000),
+            n: cfg.n(250_000, 10_000_000),
         }),
         Box::new(SpelledNumbers {
-            n: cfg.n(20_000, 300_000),
+            n: cfg.n(20_000, 1_000_000),
         }),
     ]
 }
